@@ -18,12 +18,19 @@
 (assert (forall ((p (Array Int Int)) (n Int) (j Int) (k Int)) (!
   (=> (and (isPerm p n) (<= 0 j) (< j n) (<= 0 k) (< k n) (not (= j k))) (not (= (select p j) (select p k))))
   :pattern ((isPerm p n) (select p j) (select p k)))))
+; onto: every k of [0,n) is hit (pigeonhole on a finite set: trusted finite-set fact); permInv is the witness
+(declare-fun permInv ((Array Int Int) Int Int) Int)
+(assert (forall ((p (Array Int Int)) (n Int) (k Int)) (!
+  (=> (and (isPerm p n) (<= 0 k) (< k n)) (and (<= 0 (permInv p n k)) (< (permInv p n k) n) (= (select p (permInv p n k)) k)))
+  :pattern ((isPerm p n) (permInv p n k)))))
 ; bytewise order on strings (uninterpreted total preorder; equal strings are order-equal)
 (declare-fun sle (Str Str) Bool)
 (assert (forall ((a Str)) (! (sle a a) :pattern ((sle a a)))))
 (assert (forall ((a Str) (b Str) (c Str)) (! (=> (and (sle a b) (sle b c)) (sle a c)) :pattern ((sle a b) (sle b c)))))
 ; sorting permutation chosen by sort.X for the array content A of length n (ghost result of the assumed contract)
 (declare-fun sortPerm ((Array Int Val) Int) (Array Int Int))
+; ... and its inverse: where each element of the input ends up (every element is kept: part of the assumed contract)
+(declare-fun sortInv ((Array Int Val) Int) (Array Int Int))
 (define-fun ident ((v Val)) Val v)
 (define-fun isNumeric ((v Val)) Bool (or ((_ is WInt) v) ((_ is WFloat) v)))
 ; argument of a typed callback for a stored field (as recorded on the ghost trace)
